@@ -47,7 +47,7 @@ def pin_colorama():
 
 
 class Outcome:
-    __slots__ = ('rc', 'out', 'err', 'exc', 'exc_site', 'tb')
+    __slots__ = ('rc', 'out', 'err', 'exc', 'exc_site', 'tb', 'frames')
 
     def __init__(self):
         self.rc = None
@@ -56,6 +56,7 @@ class Outcome:
         self.exc = None
         self.exc_site = None
         self.tb = ''
+        self.frames = []
 
     def summary(self):
         return (self.rc, self.out, self.exc)
@@ -89,7 +90,10 @@ def run_main(argv, stdin_text=None):
                 raise
             o.exc = type(e).__name__
             o.exc_site = site_of(e)
-            o.tb = traceback.format_exc()[-1500:]
+            o.frames = [f'{fr.filename.rsplit("/", 1)[-1]}:{fr.name}' for fr in traceback.extract_tb(e.__traceback__)
+                        if '/graphtage/' in fr.filename]
+            text = traceback.format_exc()
+            o.tb = text if len(text) < 3000 else text[:1200] + '\n...\n' + text[-1500:]
     finally:
         sys.stdout, sys.stderr, sys.stdin, gp.DEFAULT_PRINTER = saved
         for hd in list(root.handlers):
